@@ -598,7 +598,7 @@ def malformed_cases(ctx: Check) -> list[dict]:
 def random_cases(ctx: Check) -> list[dict]:
     rng = ctx.rng
     out = []
-    for _ in range(ctx.n(500, 40000)):
+    for _ in range(ctx.n(350, 40000)):
         tags, cmds = gen_env(rng)
         text, expect = gen_method(rng, tags, cmds, rng.randrange(1, ctx.n(8, 14)))
         out.append({"text": text, "tags": tags, "cmds": cmds, "expect": expect, "kind": "structured"})
